@@ -9,7 +9,7 @@ import numbers
 
 import six
 
-from .datatypes import NA, Quantity, Coordinate
+from .datatypes import NA, Quantity, Coordinate, XStr
 from .metadata import MetadataObject
 from .sortabledict import SortableDict
 
@@ -288,6 +288,7 @@ class Grid(col.MutableSequence):
         the version if given.
         '''
         if (val is NA) \
+                or isinstance(val, XStr) \
                 or isinstance(val, list) \
                 or isinstance(val, dict) \
                 or isinstance(val, SortableDict) \
